@@ -52,3 +52,14 @@ package common
 //@   at Create(ri, ctx, body, opts) [C01,C02,C06]: dyn && oldObj == nil && body == obj
 //@   at Create(ri, ctx, body, opts) [C02]: ownerLen(body) >= 1 && ownerAt(body, ownerLen(body)-1).UID == parent.GetUID() && ownerAt(body, ownerLen(body)-1).Controller != nil && *ownerAt(body, ownerLen(body)-1).Controller
 //@   at Create(ri, ctx, body, opts) [C02]: ownerAt(body, ownerLen(body)-1).Name == parent.GetName() && ownerAt(body, ownerLen(body)-1).Kind == parent.GetKind() && ownerAt(body, ownerLen(body)-1).APIVersion == parent.GetAPIVersion()
+
+//@ func ManageChildren(dynClient, updateStrategy, parent, observedChildren, desiredChildren, ssaOptions) (err)
+//@   requires dynClient != nil && dynClient.resources != nil && dynClient.dc != nil && parent != nil && ssaOptions != nil && updateStrategy != nil
+//@   requires noNilChildren(observedChildren) && noNilChildren(desiredChildren)
+//@   safety C13
+//@   bind loop 1: key, objects
+//@   bind loop 2: key2, objects2
+//@   noexit loop 1 [C12]
+//@   noexit loop 2 [C12]
+//@   at deleteChildren(client, p, observed, desired) [C01,C02,C06]: p == parent && observed == objects && has(observedChildren, key) && observedChildren[key] == objects && desired == desiredChildren[key]
+//@   at updateChildren(client, us, p, observed, desired, opts) [C01,C02,C06]: p == parent && desired == objects2 && has(desiredChildren, key2) && observed == observedChildren[key2] && us == updateStrategy && opts == ssaOptions
